@@ -1,7 +1,7 @@
 SPECIFICATION Spec
 CONSTANTS
   Fams = {"argmax", "reduce", "softmax"}
-  MaxRank = 3
+  MaxRank = 4
   MaxExt = 3
 INVARIANT Laws
 CHECK_DEADLOCK FALSE
